@@ -6,8 +6,8 @@ TLC design level : SampleCoding.tla — GrpcCode (documented table), HttpSample 
                    all interleavings), 6 negative controls (swap, grpc_internal, double, id_local,
                    depth_off, no_empty).
 M2 (spec->code)  : SampleCodingGen.tla writes the case space (all HTTP statuses 200..599, refused / reset /
-                   timeout / truncated body, all gRPC codes 0..17 + 99, tag settings x URI shapes, scenario
-                   shots with failing steps); `vdrive samplecoding -mode cases` plays each against
+                   timeout / truncated body, all gRPC codes 0..17 + 99 and client-side Unavailable /
+                   DeadlineExceeded, tag settings x URI shapes, scenario shots with failing steps); `vdrive samplecoding -mode cases` plays each against
                    in-process HTTP/HTTPS/gRPC targets with the REAL providers and guns (registered
                    factories); TraceSampleCoding.tla compares every reported sample with Expected(c).
 M1 (code->spec)  : the same log is the begin/report/end trace of a recording gun wrapper + aggregator mock,
@@ -56,8 +56,8 @@ def _case_sig(c):
         return "kind=tag fmt=%s tag=%s auto=%s notagonly=%s" % (c["fmt"], "yes" if c["tag"] else "no", at["enabled"], at["notagonly"])
     if k == "grpc":
         return "kind=grpc status=%d" % c["status"]
-    if k == "grpcbad":
-        return "kind=grpcbad what=%s" % c["what"]
+    if k in ("grpcbad", "grpcfail"):
+        return "kind=%s what=%s" % (k, c["what"])
     if k == "httpscn":
         return "kind=httpscn steps=%s" % ",".join(s["out"]["kind"] for s in c["steps"])
     if k == "grpcscn":
@@ -198,7 +198,7 @@ def run(tier, v):
         "evaluations": len(gen),
         "distinct_nontrivial": nontrivial,
         "rule": "complete case space generated by TLC (SampleCodingGen): HTTP statuses 200..599 + refused/reset/timeout/truncated, "
-                "gRPC codes 0..17,99, unknown method / ill-typed payload, invalid ammo, {tagged, untagged} x auto-tag settings x "
+                "gRPC codes 0..17,99 + client-side refused/timeout, unknown method / ill-typed payload, invalid ammo, {tagged, untagged} x auto-tag settings x "
                 "URI shapes (0-4 segments, trailing slash, 3 query forms) x formats, scenario shots over step outcomes; "
                 "non-trivial = anything but the plain 200 exchange",
         "cases_by_kind": kinds,
